@@ -10,7 +10,7 @@
 //! link, number of events the supervisor has received, `post_stop` flag.
 //!
 //! ops.txt / impl.txt:
-//!   `case <cause> <n> <d> [forms=k,…]` | `ok <fields> at=<exiter point>`   cause = stop|kill|drain|panic|stoppanic; d drainers;
+//!   `case <cause> <n> <d> [forms=k,…]` | `ok <fields> at=<exiter point>`   cause = stop|kill|drain|panic|stoppanic|abort; d drainers;
 //!                            k = wait|waitT|stop|stopT|kill|killT|drain|drainT|join: the call waiter i makes
 //!                            (`wait(None)`, `wait(Some t)`, `stop_and_wait(None, None|Some t)`, `kill_and_wait`,
 //!                            `drain_and_wait`, the `Actor::spawn` join handle), default `wait`
@@ -339,6 +339,7 @@ fn run_case(env: &mut Env, cause: &str, kinds: &[WKind], ndrain: usize, collapse
         })
     };
     let (aref, join_handle) = rx_cell.recv().expect("target actor");
+    let aborter = join_handle.abort_handle();
     let mut join_handle = Some(join_handle);
     if prof { eprintln!("spawned {:?}", t0.elapsed()); }
     let cell: ActorCell = aref.get_cell();
@@ -467,6 +468,9 @@ fn run_case(env: &mut Env, cause: &str, kinds: &[WKind], ndrain: usize, collapse
         "panic" => {
             let _ = aref.send_message(TMsg::Boom);
         }
+        // task cancellation: the future (and the port set) is dropped at its await point, the lifecycle
+        // guard's `Drop` runs `cleanup` with the "actor_task_cancelled" event
+        "abort" => aborter.abort(),
         _ => panic!("unknown cause {cause}"),
     }
     let mut eph = wait_model_point(&ectl);
@@ -1362,7 +1366,7 @@ fn main() {
         // every wait form against the exit, the timer of a timed call firing at any position
         let forms_cap = args.u64("forms-cap", enum_cap);
         use WKind::*;
-        let form_cfgs: [(&str, &str, &[WKind], bool); 12] = [
+        let form_cfgs: [(&str, &str, &[WKind], bool); 14] = [
             ("kill_stopT_full", "kill", &[StopWaitT], false),
             ("stop_killT_full", "stop", &[KillWaitT], false),
             ("stop_drainT_full", "stop", &[DrainWaitT], false),
@@ -1375,11 +1379,13 @@ fn main() {
             ("stop_stop_waitT", "stop", &[StopWait, WaitT], true),
             ("stoppanic_join_drainT", "stoppanic", &[Join, DrainWaitT], true),
             ("drain_drain_kill", "drain", &[DrainWait, KillWait], true),
+            ("abort_join_wait", "abort", &[Join, Wait], true),
+            ("abort_stopT_full", "abort", &[StopWaitT], false),
         ];
         for (name, cause, kinds, collapse) in form_cfgs {
             enumerate_forms(&mut env, name, cause, kinds, 0, collapse, false, false, forms_cap);
         }
-        let causes = ["stop", "stop", "kill", "drain", "panic", "stoppanic"];
+        let causes = ["stop", "stop", "kill", "drain", "panic", "stoppanic", "abort"];
         for _ in 0..cases {
             let cause = *rng.pick(&causes);
             let n = rng.range(0, 4) as usize;
